@@ -108,9 +108,9 @@ def params(draw, cls, ctor):
         nu = draw(st.sampled_from([0., None]))
         if nu is None:
             nu = 30 * draw(sunit)
-        sc = draw(st.sampled_from([1e-10, 1., None, None]))
+        sc = draw(st.sampled_from([1e-10, 1., None, None, 1e10]))
         if sc is None:
-            sc = logu(draw(unit), 1e-10, 1e4)
+            sc = logu(draw(unit), 1e-10, 1e10)
         return {"nu": nu, "scale": sc}
     if cls == "LogSinh":
         return {"loga": draw(special_or([-20., 0., -1.], -20., 0.)),
@@ -319,7 +319,8 @@ def points(t, case, setting, abs_guard=True, manly_low=-13.8):
     if cls == "Sinh":
         nu, sc = getp(t, "nu"), getp(t, "scale")
         sg = np.where(u >= 0, 1., -1.)
-        v = sg * np.exp(math.log(1e-6) + np.abs(u) * (math.log(1e6)
+        # scaled argument (x - nu)*scale from 1e-6 to 1e12 in magnitude
+        v = sg * np.exp(math.log(1e-6) + np.abs(u) * (math.log(1e12)
                                                       - math.log(1e-6)))
         x = v / sc + nu
         return dict(x=x, sx=np.abs(x - nu) + abs(nu),
